@@ -34,6 +34,23 @@ def specRotl (x s : Const) : Res Const :=
     .ok (Const.ofBV (x.toBV.rotateLeft (s.val % x.bits)))
   else .err .sort
 
+/-- compositional bit-vector meaning under a valuation of the scalars (specification side) -/
+def evalUnderSpec (ρ : Scalar → Option Const) : Expr → Res Const
+  | .scalar s => match ρ s with
+      | some c => .ok c
+      | none => .err .scalar
+  | .const c => .ok c
+  | .bin op l r => do
+      let a ← evalUnderSpec ρ l
+      let b ← evalUnderSpec ρ r
+      Spec.bin op a b
+  | .ext op m e => do
+      let a ← evalUnderSpec ρ e
+      Spec.ext op a m
+  | .ite c t e => do
+      let cv ← evalUnderSpec ρ c
+      if cv.val = 1 then evalUnderSpec ρ t else evalUnderSpec ρ e
+
 def handle (line : String) : String :=
   let bad := "bad-request\t-"
   match Sx.parseAll line with
@@ -88,6 +105,30 @@ def handle (line : String) : String :=
   | some (.atom "subst" :: e :: .list (.atom "s" :: sc) :: r :: []) =>
     match Fil.expr? e, Fil.scalar? sc, Fil.expr? r with
     | some e, some x, some r => showE (Expr.replaceScalar x r e) ++ "\t-"
+    | _, _, _ => bad
+  | some (.atom "substeval" :: e :: .list (.atom "s" :: sc) :: r :: .list (.atom "val" :: vals) :: []) =>
+    match Fil.expr? e, Fil.scalar? sc, Fil.expr? r with
+    | some e, some x, some r =>
+      let binds : List (Scalar × Const) := vals.filterMap fun v =>
+        match v with
+        | .list [.atom n, val, b] => do
+            let bits ← b.nat?
+            pure ({ name := n, bits := bits }, ⟨bits, (← val.nat?) % 2 ^ bits⟩)
+        | _ => none
+      -- model: mirror of what falcon does (replace_scalar for the target, then for every bound scalar, then eval)
+      let m := do
+        let e1 ← Expr.replaceScalar x r e
+        let e2 ← binds.foldlM (fun acc (s, c) => Expr.replaceScalar s (.const c) acc) e1
+        e2.eval
+      -- spec: the value of `e` under the valuation in which `x` is bound to the value of the (closed) replacement
+      let s := match Spec.denote r with
+        | .ok rv =>
+          if rv.bits = x.bits then
+            let ρ : Scalar → Option Const := fun s => if s = x then some rv else binds.lookup s
+            showC (evalUnderSpec ρ e)
+          else "?"
+        | _ => "?"
+      showC m ++ "\t" ++ s
     | _, _, _ => bad
   | _ => bad
 
